@@ -212,6 +212,12 @@ def run(tier, t0):
     exact_bytes(res, prog, c)
     cache_first(res, prog, c)
     url_roundtrip(res, prog, c)
+    # the cache tee sees exactly the consumed bytes: shared rule with C10.1 (a dropped callback truncates the cache entry)
+    from . import C10
+    res.rule('C10.1', 0, floor=3, note='(shared with C10) every consume(n) in parse_async is preceded by callback(&buf.data()[..n])')
+    fa = c.fn(C10.PARSE_ASYNC)
+    if fa is not None:
+        C10.pairing(res, prog, c, fa)
     res.assumptions += [
         'tempfile::NamedTempFile removes its file when dropped (RAII, also on cancellation) and persist_noclobber is an atomic link/rename (trusted)',
         'the parse callback is handed exactly the consumed bytes (checked under C10.1)',
